@@ -215,6 +215,13 @@ mutant("c09-romberg-midpoints", "C09", "R9.4", (IM, "N::from_f64(k as f64 - 0.5)
 mutant("c09-stop-rule", "C09", "R9.5/integrate::gaussian::integrate_laguerre", (GA, "        let err = (area - prev_area).abs();\n        if err < tol && prev_err < tol {\n            return Ok(area);\n        }\n\n        prev_area = area;\n        prev_err = err;\n    }\n\n    Err(\"integrate_laguerre", "        let err = (area - prev_area).abs();\n        if err < tol {\n            return Ok(area);\n        }\n\n        prev_area = area;\n        prev_err = err;\n    }\n\n    Err(\"integrate_laguerre"))
 mutant("c09-tol-guard", "C09", "R9.1/integrate::integrate_simpson/guard:tol", (IM, "    if !tol.is_sign_positive() {\n        return Err(\"integrate: tolerance must be positive\".to_owned());\n    }\n\n    let sixth", "    let sixth"))
 benign("c09-simpson-refactor", "C09", (IM, "        let s1 = N::from_real(step_i[i - 1]) * (f_ai[i - 1] + four * f_d + f_ci[i - 1]) * sixth;", "        let s1 = (f_ai[i - 1] + f_ci[i - 1] + four * f_d) * N::from_real(step_i[i - 1]) * sixth;"))
+mutant("c09-de-first-level", "C09", "R9.6/integrate::integrate_core/first-stop-test-at-level>=2", (IM, "if num_function_evaluations <= 13 {", "if num_function_evaluations <= 7 {"))
+benign("c09-de-first-level-equiv", "C09", (IM, "if num_function_evaluations <= 13 {", "if num_function_evaluations < 14 {"))
+benign("c09-de-more-conservative", "C09", (IM, "if num_function_evaluations <= 13 {", "if num_function_evaluations <= 25 {"))
+mutant("c09-de-one-sided-window", "C09", "R9.6/integrate::integrate_core/square-only-in-trend-window", (IM, "if r > one_point_nine && r < two_point_one {", "if r > one_point_nine {"))
+mutant("c09-de-break-unjustified", "C09", "R9.6/integrate::integrate_core", (IM, "        if error_estimate < tol {\n            break;\n        }\n    }\n\n    if error_estimate < tol {", "        if error_estimate < tol + tol {\n            break;\n        }\n    }\n\n    if error_estimate < tol + tol {"))
+mutant("c09-de-delta-wrong", "C09", "R9.6/integrate::integrate_core/level-update", (IM, "current_delta = (half * integral - new_contribution).abs();", "current_delta = (integral - new_contribution).abs();"))
+mutant("c09-de-initial-estimate", "C09", "R9.6/integrate::integrate_core/initial-estimate-not-converged", (IM, "let mut error_estimate = N::RealField::one() + tol;", "let mut error_estimate = N::RealField::zero();"))
 
 # ---- C14
 mutant("c14-linear-sign", "C14", "R14.1/Polynomial::roots/linear", (PM, "let division = -self.coefficients[0] / self.coefficients[1];", "let division = self.coefficients[0] / self.coefficients[1];"))
@@ -229,3 +236,19 @@ mutant("c14-hermite-deflator", "C14", "R14.5/special::polynomial::hermite_zeros/
 mutant("c14-hermite-polish", "C14", "R14.5/special::polynomial::hermite_zeros/deflate-then-polish", (SP, "let zero = newton_polynomial(zero, &poly, tol, n_max)?;", "let zero = newton_polynomial(zero, &deflator, tol, n_max)?;"))
 benign("c14-refactor", "C14", (PM, "let division = -self.coefficients[0] / self.coefficients[1];", "let division = -(self.coefficients[0] / self.coefficients[1]);"))
 benign("c14-root-order", "C14", (PM, "        roots.push_front(guess);\n", "        roots.push_back(guess);\n"))
+
+# ---- round 2 of the seeded campaign: rules added for misses -------------------------------------------------------------------
+mutant("c05-rk-safety-factor-one", "C05", "R5.4/RungeKuttaSolver::step/reject-shrinks-by-a-margin", (RK, "let eighty_four = Self::Field::from_u8(84)", "let eighty_four = Self::Field::from_u8(100)"))
+benign("c05-rk-safety-factor-90", "C05", (RK, "let eighty_four = Self::Field::from_u8(84)", "let eighty_four = Self::Field::from_u8(90)"))
+mutant("c05-adams-no-safety", "C05", "R5.4/AdamsSolver::step/reject-shrinks-by-a-margin", (AD, "        let q = (self.tolerance.real() / (self.two.real() * error.real()))", "        let q = (self.tolerance.real() / error.real())"))
+mutant("c14-quadratic-real-sqrt", "C14", "R14.7/Polynomial::roots/complex-domain:sqrt", ("src/polynomial/mod.rs", "Complex::<N::RealField>::new(determinant.real(), determinant.imaginary())\n                        .sqrt();", "Complex::<N::RealField>::new(determinant.sqrt().real(), determinant.sqrt().imaginary());"))
+RM = "src/roots/mod.rs"
+mutant("c08-broyden-u-transposed", "C08", "R8.5/roots::secant/broyden:secant-equation", (RM, "let u = s_transpose * jac_inv;", "let u = (jac_inv * shift).transpose();"))
+mutant("c08-broyden-p-sign", "C08", "R8.5/roots::secant/broyden:secant-equation", (RM, "let p = (-s_transpose * adjustment)[(0, 0)];", "let p = (s_transpose * adjustment)[(0, 0)];"))
+mutant("c08-broyden-stale-f", "C08", "R8.5/roots::secant/broyden:step", (RM, "        shift = -&jac_inv * func_eval;\n        guess += &shift;\n        if shift.norm().abs() <= tol {", "        shift = -&jac_inv * func_eval_last;\n        guess += &shift;\n        if shift.norm().abs() <= tol {"))
+benign("c08-broyden-refactor", "C08", (RM, "let adjustment = -jac_inv * diff;", "let adjustment = -(jac_inv * diff);"))
+mutant("c07-bisection-product-ge-zero", "C07", "R7.8/roots::bisection/bracket-lost", (RM, "        if (f_p * f_a).is_sign_positive() {", "        if f_p * f_a >= N::zero() {"))
+mutant("c07-brent-product-lt-zero", "C07", "R7.8/roots::brent/bracket-lost", (RM, "        if (f_left * f_s).is_sign_negative() {", "        if f_left * f_s < N::zero() {"))
+mutant("c07-itp-arms-swapped", "C07", "R7.8/roots::itp/bracket-lost", (RM, "        if f_itp > N::zero() {\n            right = x_itp;\n            f_right = f_itp;\n        } else if f_itp < N::zero() {\n            left = x_itp;\n            f_left = f_itp;", "        if f_itp < N::zero() {\n            right = x_itp;\n            f_right = f_itp;\n        } else if f_itp > N::zero() {\n            left = x_itp;\n            f_left = f_itp;"))
+benign("c07-bisection-signbits-compared", "C07", (RM, "        if (f_p * f_a).is_sign_positive() {", "        if f_p.is_sign_positive() == f_a.is_sign_positive() {"))
+benign("c07-bisection-signum-compared", "C07", (RM, "        if (f_p * f_a).is_sign_positive() {", "        if f_p.signum() == f_a.signum() {"))
